@@ -541,7 +541,10 @@ class Client(pipeline.Stream):
 
     def run_impl(self, case):
         J = self.J
-        cfg = self.C.Config(content_type=case["ct"], user_agent="verif-agent")
+        # in a third of the cases the content type is configured AFTER the proxy (and its transport) exist: what is
+        # declared is the configuration's value when the message is emitted
+        late = (len(case["body"]) + len(case["ct"]) + len(case["path"])) % 3 == 0
+        cfg = self.C.Config(content_type=("application/x-set-before" if late else case["ct"]), user_agent="verif-agent")
         mode = case["mode"]
         peer = None
         path = case["path"]
@@ -563,6 +566,8 @@ class Client(pipeline.Stream):
             except Exception as ex:   # noqa
                 return ("rejected", exc_name(ex))
             t = proxy._ServerProxy__transport
+            if late:
+                cfg.content_type = case["ct"]
             conn = None
             if peer is None:
                 conn = S.CapturingConnection(S.http_response(self.OKRESP))
